@@ -237,13 +237,14 @@ static const a_real m7e[] = {TRI, -1.5, -1.5, -1, TRI, -1.5, -1, -.5, TRI, -1, -
 static const a_real m7kp[] = {-3, -3, -2, -2, -1, 0, 0, -3, -3, -2, -1, -1, 0, 1, -2, -2, -2, -1, 0, 1, 1, -2, -2, -1, 0, 1, 2, 2, -1, -1, 0, 1, 1, 2, 2, -1, 0, 1, 2, 2, 2, 3, 0, 0, 2, 2, 2, 3, 3};
 static const a_real mixe[] = {A_MF_LINZ, -2, -1, A_MF_PI, -2, -1, 1, 2, A_MF_LINS, 1, 2}; // ramps at both ends, pi-shaped centre
 struct Base { const char *name; unsigned n, active; const a_real *me, *mec, *kp, *ki, *kd; };
-static const Base BASES[6] = {
+static const Base BASES[7] = {
     {"3x3 shoulder triangles (test/pid_fuzzy.h)", 3, 2, m3e, m3ec, m3kp, m3ki, m3kd},
     {"5x5 trapezoid shoulders", 5, 2, m5e, m5e, m5k, m5k, nullptr},
     {"3x3 wide triangles, 3 active", 3, 3, w3e, w3e, w3k, nullptr, w3k},
     {"3x3 gaussian/bell, all active", 3, 3, g3e, g3e, w3k, w3k, w3k},
     {"7x7 triangles (test/pid_fuzzy.h)", 7, 2, m7e, m7e, m7kp, m7kp, m7kp},
     {"3x3 ramps + pi", 3, 2, mixe, mixe, w3k, w3k, w3k},
+    {"3x3 shoulder triangles without a kp table", 3, 2, m3e, m3ec, nullptr, m3ki, m3kd},
 };
 static const unsigned OPRS[7] = {A_PID_FUZZY_EQU, A_PID_FUZZY_CAP, A_PID_FUZZY_CAP_ALGEBRA, A_PID_FUZZY_CAP_BOUNDED, A_PID_FUZZY_CUP, A_PID_FUZZY_CUP_ALGEBRA, A_PID_FUZZY_CUP_BOUNDED};
 static const char *OPRN[7] = {"equ", "cap", "cap_algebra", "cap_bounded", "cup", "cup_algebra", "cup_bounded"};
@@ -328,7 +329,7 @@ static void inference(bool thorough)
             }
         }
     }
-    R.part(std::string("gain scheduling: 6 rule bases (shoulder triangles, trapezoid shoulders, 3 simultaneously active triangles, gaussian/bell, 7x7, ramps+pi) x 7 operators x ") + std::to_string(G) + "x" + std::to_string(G) + " (e, ec) lattice spanning beyond the universe; buffer of exactly A_PID_FUZZY_BFUZZ(active) bytes between canaries", n, nt);
+    R.part(std::string("gain scheduling: 7 rule bases (shoulder triangles, trapezoid shoulders, 3 simultaneously active triangles, gaussian/bell, 7x7, ramps+pi, one without a kp table; each of kp/ki/kd absent in one base) x 7 operators x ") + std::to_string(G) + "x" + std::to_string(G) + " (e, ec) lattice spanning beyond the universe; buffer of exactly A_PID_FUZZY_BFUZZ(active) bytes between canaries", n, nt);
     R.sample("{\"base\":\"3x3 shoulder triangles\",\"operator\":\"cap_bounded\",\"e\":0.3,\"ec\":0.8,\"note\":\"every pairwise bounded product is 0: total firing strength 0, gains must stay finite\"}");
 }
 
